@@ -4216,3 +4216,8 @@ pub(crate) fn write_op_to_proto(
         },
     }
 }
+
+/// Accessors for out-of-tree Kani harnesses; compiled only under `--cfg kani`.
+#[cfg(kani)]
+#[path = "verif_hooks_leader.rs"]
+pub mod verif_hooks_leader;
